@@ -39,7 +39,9 @@ Ltac inv1 :=
   | H : succ _ (VerifyEq _ _ _) _ _ _ |- _ => inv H
   | H : succ _ (Many0 _) _ _ _ |- _ => inv H
   end.
-Ltac invs := repeat inv1.
+Ltac unfold_xc := unfold xc_char_except0, xc_char_except1, xc_enc_name0, xc_name_char_except0, xc_name_char_except1,
+  xc_name_start_char_except1, xc_pubid_char_except0 in *.
+Ltac invs := unfold_xc; repeat inv1.
 Ltac inv_nt H lem := inv H; match goal with H' : succ _ (body _ _) _ _ _ |- _ => rewrite lem in H' end.
 Ltac inv_alt := match goal with H : succ _ (Alt _ _) _ _ _ |- _ => inv H end.
 
@@ -87,4 +89,100 @@ Proof.
   - match goal with H : succ _ (NT nt_char_ref) _ _ _ |- _ => inv_nt H body_char_ref end. inv_alt; invs.
     + eexists (RefChar _ Dec). split; [reflexivity|]. split; assumption.
     + eexists (RefChar _ Hex). split; [reflexivity|]. split; assumption.
+Qed.
+
+(** ** AttValue *)
+Lemma stops_nonempty_contra (f : char -> bool) (a r : str) : a <> [] -> forallb f a = true -> stops f (a ++ r) -> False.
+Proof. destruct a as [|c a]; [contradiction|]. cbn [forallb app stops]. intros _ H1 H2. apply andb_prop in H1. destruct H1. congruence. Qed.
+
+Lemma inv_av_many q s ts r : SM (av_piece q) s ts r ->
+  forall b, (b = true -> stops (eval (is_char_except [60;38;q])) s) ->
+  exists l, map eval_tree ts = map VAttValue l /\ av_ok q b l.
+Proof.
+  intros H. remember (av_piece q) as e eqn:Ee. induction H as [e s|e s t r1 ts r Hs Hlt Hm IH]; intros b Hb; subst e.
+  - exists []. split; [reflexivity|exact I].
+  - specialize (IH eq_refl). unfold av_piece in Hs. inv Hs; invs.
+    + (* text *)
+      destruct (IH true) as [l [El Hl]]; [intros _; assumption|].
+      exists (AvText a :: l). split; [cbn [map eval_tree]; rewrite El; reflexivity|].
+      cbn [av_ok]. repeat split; try assumption.
+      destruct b; [|reflexivity]. exfalso. eapply stops_nonempty_contra; [| |apply Hb; reflexivity]; eassumption.
+    + (* reference *)
+      match goal with H : succ _ (NT nt_reference) _ _ _ |- _ => apply inv_reference in H; destruct H as [x [Ex Hx]] end.
+      destruct (IH false) as [l [El Hl]]; [intros; discriminate|].
+      exists (AvReference x :: l). split; [cbn [map eval_tree]; rewrite Ex, El; reflexivity|].
+      cbn [av_ok]. split; assumption.
+Qed.
+
+Lemma inv_att_value s t r : S (NT nt_att_value) s t r ->
+  exists q l, (q = 34 \/ q = 39) /\ eval_tree t = VList (map VAttValue l) /\ av_ok q false l.
+Proof.
+  intros H. inv_nt H body_att_value. inv_alt; invs.
+  - match goal with H : succ_many _ (av_piece 34) _ _ _ |- _ => destruct (inv_av_many _ _ _ _ H false) as [l [El Hl]]; [intros; discriminate|] end.
+    exists 34, l. split; [left; reflexivity|]. split; [cbn [eval_tree]; rewrite El; reflexivity|exact Hl].
+  - match goal with H : succ_many _ (av_piece 39) _ _ _ |- _ => destruct (inv_av_many _ _ _ _ H false) as [l [El Hl]]; [intros; discriminate|] end.
+    exists 39, l. split; [right; reflexivity|]. split; [cbn [eval_tree]; rewrite El; reflexivity|exact Hl].
+Qed.
+
+(** ** take_until: the slice has no occurrence of the pattern *)
+Lemma prefix_nil_none pat : pat <> [] -> prefix pat [] = None.
+Proof. destruct pat; [contradiction|reflexivity]. Qed.
+
+Lemma find_sub_nil pat : pat <> [] -> find_sub pat [] = None.
+Proof. intros H. cbn [find_sub]. rewrite (prefix_nil_none pat H). reflexivity. Qed.
+
+Lemma prefix_firstn_none pat (v : str) j : prefix pat v = None -> prefix pat (firstn j v) = None.
+Proof.
+  intros H. destruct (prefix pat (firstn j v)) as [t|] eqn:E; [|reflexivity].
+  pose proof (prefix_some_app' pat (firstn j v) t (skipn j v) E) as H2. rewrite firstn_skipn in H2. congruence.
+Qed.
+
+Lemma find_sub_firstn pat : pat <> [] -> forall (v : str) i, find_sub pat v = Some i -> find_sub pat (firstn i v) = None.
+Proof.
+  intros Hp. induction v as [|c v IH]; intros i H.
+  - cbn [find_sub] in H. rewrite (prefix_nil_none pat Hp) in H. discriminate.
+  - cbn [find_sub] in H. destruct (prefix pat (c :: v)) eqn:E.
+    + injection H as <-. cbn [firstn]. apply find_sub_nil. exact Hp.
+    + destruct (find_sub pat v) as [j|] eqn:Ej; [|discriminate]. injection H as <-. cbn [firstn find_sub].
+      pose proof (prefix_firstn_none pat (c :: v) (Datatypes.S j) E) as E2. cbn [firstn] in E2. rewrite E2.
+      rewrite (IH j eq_refl). reflexivity.
+Qed.
+
+Lemma find_sub_le pat (v : str) i : find_sub pat v = Some i -> (i <= length v)%nat.
+Proof.
+  revert i. induction v as [|c v IH]; intros i H; cbn [find_sub] in H.
+  - destruct (prefix pat []); [injection H as <-; cbn; lia|discriminate].
+  - destruct (prefix pat (c :: v)); [injection H as <-; lia|]. destruct (find_sub pat v) as [j|]; [|discriminate].
+    injection H as <-. specialize (IH j eq_refl). cbn [length]. lia.
+Qed.
+
+Lemma forallb_firstn {A} (f : A -> bool) i l : forallb f l = true -> forallb f (firstn i l) = true.
+Proof. revert i. induction l as [|x l IH]; intros [|i] H; cbn in *; auto. apply andb_prop in H. destruct H as [-> H]. cbn. auto. Qed.
+
+Lemma firstn_app_le {A} i (v r : list A) : (i <= length v)%nat -> firstn i (v ++ r) = firstn i v.
+Proof. intros H. rewrite firstn_app. replace (i - length v)%nat with 0%nat by lia. cbn. apply app_nil_r. Qed.
+
+(** the slice a [take_until] over a character run returns *)
+Lemma inv_take_until (p : cpred) pat s t r : pat <> [] -> S (TakeUntil (Chars0 p) pat) s t r ->
+  exists x : str, t = TStr x /\ forallb (eval p) x = true /\ find_sub pat x = None /\ suffix_of r s
+                  /\ (forall c x', x = c :: x' -> exists s', s = c :: s').
+Proof.
+  intros Hp H. inv H; invs.
+  - match goal with H : ?v ++ ?r = ?a ++ ?r |- _ => apply app_inv_tail in H; subst v end.
+    eexists. split; [reflexivity|]. repeat split; try assumption; [eexists; reflexivity|].
+    intros c x' ->. eexists. reflexivity.
+  - match goal with H : ?v ++ ?r = ?a ++ ?r |- _ => apply app_inv_tail in H; subst v end.
+    match goal with H : find_sub pat ?a = Some ?i |- _ => pose proof (find_sub_le _ _ _ H) as Hle; pose proof (find_sub_firstn pat Hp _ _ H) as Hno end.
+    rewrite firstn_app_le by exact Hle.
+    eexists. split; [reflexivity|]. split; [apply forallb_firstn; assumption|]. split; [exact Hno|].
+    split; [eexists; symmetry; apply firstn_skipn|].
+    intros c x' E. destruct a as [|c0 a']; [destruct i; discriminate|]. destruct i; [discriminate|]. cbn [firstn] in E. injection E as <- _.
+    eexists. reflexivity.
+Qed.
+
+Lemma inv_char_data s t r : S (NT nt_char_data) s t r -> exists x : str, t = TStr x /\ text_ok x.
+Proof.
+  intros H. inv_nt H body_char_data. unfold xc_char_except0 in *.
+  match goal with H : succ _ (TakeUntil _ _) _ _ _ |- _ => apply inv_take_until in H; [|discriminate]; destruct H as [x [-> [H1 [H2 _]]]] end.
+  exists x. split; [reflexivity|split; assumption].
 Qed.
